@@ -6,7 +6,10 @@ use std::sync::Arc;
 use ahash::AHashMap;
 use bs58;
 use log::{debug, error, info, warn};
+#[cfg(not(saito_verif))]
 use tokio::sync::RwLock;
+#[cfg(saito_verif)]
+use crate::core::util::verif::RwLock;
 
 use crate::core::consensus::block::{Block, BlockType};
 use crate::core::consensus::mempool::Mempool;
